@@ -193,7 +193,7 @@ add("C15",
     "ensures INV (len(ctrlpoints) == npts == len(knotvector) - degree - 1, len(weights) == npts when present), the expected npts / degree change, and on EVERY "
     "exceptional exit (ValueError, AssertionError, ZeroDivisionError) the three fields are unchanged; callers are checked against callee contracts (e.g. "
     "rows(matrix) == npts(newknotvector) at each call of apply, 'the sum has the same degree' before Operations.knot_insert). This is the invariant argument for all "
-    "histories of these operations. Frame analysis over the package AST (unbounded): the fields are written only by __init__, update and the setters, no back door, "
+    "histories of these operations. Frame analysis over the package AST (unbounded): the fields are written only by __init__, update, the setters and the rollback of apply (which puts back the state it saved: proved by its contract), no back door, "
     "no in-place KnotVector mutator on a .knotvector attribute, operators on deep copies. Bounded part: all sequences of public operations up to a depth bound from "
     "eight start curves (polynomial, rational, zero control weight, weights only, empty, redundant knots) - consistency, atomicity, operand integrity, partner curve "
     "built from the same KnotVector object. Writing these contracts exposed D26-D29 (fixed).",
